@@ -64,7 +64,7 @@ def gate():
     """No admitted proofs, declared axioms or disabled kernel checks anywhere in the development."""
     hits = []
     files = []
-    for sub in ("theories", "proofs", "props"):
+    for sub in ("theories", "proofs", "props", "tie"):
         files += sorted(glob.glob(os.path.join(COQ, sub, "*.v")))
     files += [os.path.join(VERIF, "extract", "Extract.v")]
     for f in files:
@@ -134,6 +134,44 @@ def jsonable(x):
     return x
 
 
+L2_GROUPS = {"T2": {"C01", "C02", "C03", "C04", "C05", "C06", "C07"}, "T1": {"C09", "C10", "C11"},
+             "T3": {"C05", "C06"}}
+L2_WHAT = {"T1": "index arithmetic of HostVector._update_vector_idxs, Scenario.get_state_dims / get_observation_dims / "
+                 "get_action_space_size and ParameterisedActionSpace nvec",
+           "T2": "gate cascade of Network.perform_action (order, polarity, chance comparison)",
+           "T3": "step-limit flag / reward expression of NASimEnv.step and generative_step"}
+
+
+def level2(pid, log):
+    """Level-2 tie: regenerate gen/Tr.v from /repo's source and re-check the equivalence lemmas."""
+    groups = sorted(g for g, ps in L2_GROUPS.items() if pid in ps)
+    if not groups:
+        return None
+    os.makedirs(common.WORK, exist_ok=True)
+    with open(os.path.join(common.WORK, "level2.lock"), "w") as lk:
+        fcntl.flock(lk, fcntl.LOCK_EX)
+        rc, out = sh(f"NASIM_REPO={REPO} VERIF_COQ={COQ} {sys.executable} {VERIF}/translator/translate.py", timeout=120)
+        if rc != 0:
+            return dict(status="unavailable", groups=groups, detail=out.strip()[-600:], lemmas=0)
+        q = "-Q theories NasimV -Q proofs NasimV.proofs -Q gen NasimV.gen -Q tie NasimV.tie"
+        rc, out = sh(f"timeout 300 coqc {q} gen/Tr.v", cwd=COQ, timeout=400)
+        res = dict(status="ok", groups=groups, lemmas=0, cmd=f"cd {COQ} && python3 ../translator/translate.py && coqc {q} gen/Tr.v tie/TieT*.v")
+        if rc != 0:
+            res.update(status="broken", broken="gen/Tr.v (regenerated from source) no longer type-checks against Gates.v",
+                       detail=out[-800:])
+        else:
+            for g in groups:
+                rc, out = sh(f"timeout 300 coqc {q} tie/Tie{g}.v", cwd=COQ, timeout=400)
+                n = out.count("Closed under the global context")
+                if rc != 0 or n == 0:
+                    res.update(status="broken", broken=f"tie/Tie{g}.v: equivalence of the regenerated {L2_WHAT[g]} with the model",
+                               detail=out[-800:])
+                    break
+                res["lemmas"] += n
+        sh("rm -f gen/Tr.vo gen/Tr.glob gen/Tr.vos gen/Tr.vok gen/.Tr.aux tie/*.vo tie/*.glob tie/*.vos tie/*.vok tie/.*.aux", cwd=COQ)
+        return res
+
+
 def write_replay(pid, payload):
     payload = jsonable(payload)
     rdir = os.environ.get("VERIF_REPLAY_DIR") or os.path.join(VERIF, "replays")
@@ -198,6 +236,18 @@ def main():
         print(f"machinery broken: harness produced a number outside the exact domain: {e}")
         sys.exit(2)
 
+    # ---- Level-2 tie ----
+    l2 = level2(pid, log)
+    if l2 and l2["status"] == "broken" and not [v for v in outcome.get("violations", []) if v.get("failing_input_found")]:
+        outcome.setdefault("violations", []).append(dict(
+            kind="broken-proof-obligation", property=pid, failing_input_found=False, broken=l2["broken"],
+            what="the control logic regenerated from the current source is no longer proved equal to the model, and "
+                 "neither the correspondence streams nor the monitors of this run found a failing input",
+            detail=l2.get("detail")))
+    if l2 and l2["status"] == "ok":
+        outcome["extra_obligations"] = outcome.get("extra_obligations", 0) + l2["lemmas"]
+        outcome["extra_discharged"] = outcome.get("extra_discharged", 0) + l2["lemmas"]
+        outcome["checker_extra"] = outcome.get("checker_extra", "") + " ; " + l2["cmd"]
     # ---- verdict ----
     known = [k for k in load_known() if k["property"] == pid and k["status"] == "open"]
     violations = []
@@ -225,6 +275,7 @@ def main():
         samples=outcome.get("samples", []),
         correspondence=outcome.get("correspondence", {}),
         explanation=outcome.get("explanation", ""),
+        level2=({k: v for k, v in l2.items() if k != "cmd"} if l2 else "not applicable to this property"),
     )
     for k in ("states", "transitions", "exhaustive", "traces_validated_against_impl"):
         if k in outcome:
